@@ -17,6 +17,7 @@ func init() {
 			"R12.5 keep-alive body: Close always closes the wrapped body and returns its error, drains only when the end was not seen, the end is recorded only on io.EOF or a zero-byte read, and the transport wraps only successful responses; R12.6 the only goroutines started by client calls are the multipart writer (and the CSV producer's errgroup). " +
 			"R12.5 also: every successful response leaves the keep-alive RoundTrip with its body wrapped (only a nil or http.NoBody body may stay unwrapped). " +
 			"R12.5 also: EnableConnectionReuse installs the draining transport in the client the runtime already holds, else in Runtime.Transport. " +
+			"R12.4 also: the closer of a copied stream is looked up before the body variable is re-bound to the buffer, and client.Do is not reachable after a failed debug dump. " +
 			"NOT decided: wall-clock bounds, behaviour of net/http and of servers.",
 		Run: runC12,
 	})
